@@ -211,7 +211,7 @@ class Path(object):
 PURE_SUFFIXES = (
     "::get", "::contains_key", "::contains", "::is_empty", "::len", "::is_some", "::is_none",
     "::as_ref", "::iter", "::as_str", "::ends_with", "::starts_with", "::get_by_cluster",
-    "::is_ok", "::is_err", "::as_deref", "::chars", "::rev", "::first", "::last",
+    "::is_ok", "::is_err", "::as_deref", "::chars", "::rev", "::first", "::last", "::new",
 )
 
 IDENTITY_CALLS = (
